@@ -23,7 +23,7 @@
 (* reject each of them.                                                      *)
 (***************************************************************************)
 EXTENDS Integers, Sequences, FiniteSets, TLC, Json, CSV, IOUtils
-CONSTANTS Families,    \* subset of {"one", "rsv", "two", "three"}: which configuration families Init ranges over
+CONSTANTS Families,    \* subset of {"one", "rsv", "two", "three", "mini"}: which configuration families Init ranges over
           OneRsv,      \* boot histories combined with every single-section geometry
           HistLen,     \* the "rsv" family ranges over every boot history of up to HistLen reservation requests
           Bug,         \* "" or the name of a design mutant
@@ -83,6 +83,10 @@ Configs(fam) ==
          {[off |-> KOff, secs |-> <<Sec(KOff + 8, 5, 2)>>, hist |-> r] :
             r \in {<<>>} \cup {<<c>> : c \in 0..7} \cup {<<1, c>> : c \in 0..7} \cup {<<3, 6, c>> : c \in 0..7}
                   \cup UNION {[1..k -> {3, 5, -1, -2, -3, -4, -5}] : k \in 1..HistLen}}
+    [] fam = "mini" ->
+         \* smallest scope in which every design mutant shows (used by the MCKernelPDTBug_* configurations)
+         {[off |-> KOff, secs |-> q, hist |-> r] :
+            q \in {<<Sec(KOff + 8, 4, 2)>>, <<Sec(KOff + 10, 5, 6)>>, <<Sec(20, 4, 2)>>}, r \in {<<>>, <<3>>, <<3, -2>>}}
     [] fam = "two" ->
          {[off |-> KOff, secs |-> <<Sec(g[1].a, g[1].sz, f1), Sec(g[2].a, g[2].sz, f2)>>, hist |-> <<3>>] :
             f1 \in TwoFlags, f2 \in TwoFlags,
